@@ -6,6 +6,7 @@
 
 mod engine;
 mod event;
+mod mpmc;
 mod infra;
 mod mutex;
 mod semaphore;
@@ -48,6 +49,36 @@ fn make_sut(prim: &str, flavour: &str, consts: &Value) -> Option<Box<dyn Sut>> {
         ("timer", "pl") => Box::new(timer::TimerSut::<timer::ViaSync<Pl>>::new(consts)),
         ("timer", "pl-local") => Box::new(timer::TimerSut::<timer::ViaLocal<Pl>>::new(consts)),
         ("timer", "vlock") => Box::new(timer::TimerSut::<timer::ViaSync<VLock>>::new(consts)),
+        ("mpmc", fl) => return make_mpmc(fl, consts),
+        _ => return None,
+    })
+}
+
+use futures_intrusive::buffer::{ArrayBuf, FixedHeapBuf, GrowingHeapBuf};
+use mpmc::{Borrowed, ChanSut, SharedCh, Tag};
+
+fn make_mpmc(flavour: &str, consts: &Value) -> Option<Box<dyn Sut>> {
+    let cap = consts["Cap"].as_u64().unwrap_or(1);
+    macro_rules! arr {
+        ($kind:ident, $m:ty) => {
+            match cap {
+                0 => Box::new(ChanSut::<$kind<$m, ArrayBuf<Tag, [Tag; 0]>>>::new(consts, false)) as Box<dyn Sut>,
+                1 => Box::new(ChanSut::<$kind<$m, ArrayBuf<Tag, [Tag; 1]>>>::new(consts, false)),
+                2 => Box::new(ChanSut::<$kind<$m, ArrayBuf<Tag, [Tag; 2]>>>::new(consts, false)),
+                3 => Box::new(ChanSut::<$kind<$m, ArrayBuf<Tag, [Tag; 3]>>>::new(consts, false)),
+                _ => return None,
+            }
+        };
+    }
+    Some(match flavour {
+        "local-array" => arr!(Borrowed, Noop),
+        "pl-array" => arr!(Borrowed, Pl),
+        "vlock-array" => arr!(Borrowed, VLock),
+        "pl-fixed" => Box::new(ChanSut::<Borrowed<Pl, FixedHeapBuf<Tag>>>::new(consts, false)),
+        "pl-growing" => Box::new(ChanSut::<Borrowed<Pl, GrowingHeapBuf<Tag>>>::new(consts, true)),
+        "shared-growing" => Box::new(ChanSut::<SharedCh<Pl, GrowingHeapBuf<Tag>>>::new(consts, true)),
+        "shared-fixed" => Box::new(ChanSut::<SharedCh<Pl, FixedHeapBuf<Tag>>>::new(consts, false)),
+        "shared-vlock-array" => arr!(SharedCh, VLock),
         _ => return None,
     })
 }
